@@ -2,9 +2,11 @@
 from props import compile_common as cc
 
 LEVEL = 'proof'
-MODULES = ['Pysmi.Props.C09', 'Pysmi.Props.C09Failure']
-LAKE_TARGETS = ['Pysmi.Props.C09', 'Pysmi.Props.C09Failure']
+MODULES = ['Pysmi.Props.C09', 'Pysmi.Props.C09Failure', 'Pysmi.Pins.Compile']
+LAKE_TARGETS = ['Pysmi.Props.C09', 'Pysmi.Props.C09Failure', 'Pysmi.Pins.Compile']
 THEOREMS = [
+    'Pysmi.Pins.Compile.pin_statuses',
+    'Pysmi.Pins.Compile.pin_skeleton',
     'Pysmi.Compile.C09_no_put_before_gate',
     'Pysmi.Compile.C09_gate',
     'Pysmi.Compile.C09_store_calls',
